@@ -77,10 +77,10 @@ func (ctx *Context) Parse(value string) error {
 	ctx.detailCache = ""
 	ctx.DetailSpans = nil // 旧的计算过程指向上一段文本，不能与新文本混用
 
-	// 设置错误消息语言
-	SetParseErrorLanguage(ctx.Config.ParseErrorLanguage)
 	err := runParser(p)
 	if err != nil {
+		// 错误消息语言取自本 VM 的设置，不经过全局变量，不影响其他 VM
+		applyParseErrorLanguage(err, ctx.Config.ParseErrorLanguage)
 		ctx.Error = err
 		return err
 	}
